@@ -18,7 +18,7 @@ var c16Chunks = []string{
 	"\x00", "\x1f", "\x7f", "\n", "\u00e9", "\uffff", "\U0001F600",
 	`\n`, "\\u0041", `\ud83d`, `\ude00`, // escape-like texts taken literally as key characters
 	"&", "|", ">", "#", "%",
-	"\ufffd", // also reachable through lone-surrogate escapes
+	"\ufffd",           // also reachable through lone-surrogate escapes
 	"\u3000", "\u00a0", // Unicode blanks (never the same as an ASCII space)
 }
 
